@@ -33,7 +33,9 @@ MANIFEST = dict(
          "whose element is held elsewhere and that the pivot taken out is stored back on every path to the return. Chunking: the section "
          "sizes, division points and (start, end) table of isplit are evaluated abstractly (runs of equal values, their cumulative sum, offsets "
          "into it; or, for division points written in closed form from an arange, the i-th point as a term, decided on both sides of i = r) "
-         "and compared as integer terms with r sections of q+1 then nchunks-r of q; the list splitarray returns is read as a "
+         "and compared as integer terms with r sections of q+1 then nchunks-r of q (a running total carried through the filling loop is solved as the "
+         "cumulative sum of its per-round increment, `x if i < r else y` giving two runs; stores through a field view kept under a name are stores "
+         "into the table); a helper that only reads elements of an array it is passed leaves the vacated-slot state as it is; the list splitarray returns is read as a "
          "sequence (count, i-th element) whichever way it is built (loop-carried bounds with a constant step are solved in closed form) and "
          "compared with var[i*nper:(i+1)*nper], count ceil(size/nper). Helpers "
          "of the package are followed (yield from / for over a wrapping generator, helpers that return a possibly-None total, closures).",
@@ -1957,8 +1959,8 @@ def keyvalue(chk, repo):
         ok = bool(withcalls) and all("%s < %s" % (lo, hi) in _facts(v, n) for n in withcalls)
         chk.ob("R20.sort", q2 + "::guard", ok, fi.where(), "partition and recursion only for ranges of two or more elements (start < end)")
     # no element is lost or duplicated by either partition (typestate of the vacated slot)
-    permutation(chk, pp, pp.params[:1])
-    permutation(chk, pk, pk.params[:2])
+    permutation(chk, pp, pp.params[:1], repo)
+    permutation(chk, pk, pk.params[:2], repo)
 
 
 # ---------------------------------------------------------------------------
@@ -2088,8 +2090,38 @@ def _index_term(e):
     return None
 
 
+def _reads_only(repo, h, p, seen=()):
+    """the function h uses its parameter p for nothing but reading single elements (`p[i]`), `len(p)`, and passing it bare to package
+    functions that do the same: it stores nothing into p, makes no view or alias of it and does not keep it"""
+    if (h.qualname, p) in seen:
+        return True
+    if len(seen) > 4 or rules.is_generator(h.node) or _has_nested(h.node) or _plain_params(h) is None or p not in _plain_params(h):
+        return False
+    pm = _parent_map(h.node)
+    for x in ast.walk(h.node):
+        if not (isinstance(x, ast.Name) and x.id == p):
+            continue
+        if not isinstance(x.ctx, ast.Load):
+            return False
+        par = pm.get(id(x))
+        if isinstance(par, ast.Subscript) and par.value is x and isinstance(par.ctx, ast.Load) \
+                and not any(isinstance(y, (ast.Slice, ast.Tuple, ast.Starred)) for y in ast.walk(par.slice)):
+            continue
+        if isinstance(par, ast.Call) and not par.keywords and any(a is x for a in par.args) and not any(isinstance(a, ast.Starred) for a in par.args):
+            if isinstance(par.func, ast.Name) and par.func.id == "len" and len(par.args) == 1:
+                continue
+            g = _callee(repo, h, par)
+            gp = _plain_params(g) if g is not None else None
+            if gp is not None and len(gp) == len(par.args) and \
+                    all(_reads_only(repo, g, gp[i], seen + ((h.qualname, p),)) for i, a in enumerate(par.args) if a is x):
+                continue
+        return False
+    return True
+
+
 class _Vacated:
-    def __init__(self, fi, arrays):
+    def __init__(self, fi, arrays, repo=None):
+        self.repo = repo
         self.fi = fi
         self.arrays = list(arrays)
         self.cfg = cfg_of(fi)
@@ -2107,11 +2139,33 @@ class _Vacated:
         return None
 
     def touches(self, node):
-        """does the node hand an array to something, or store to it in a way that is not a plain element store?"""
-        for x in ast.walk(node):
+        """does the node hand an array to something, or store to it in a way that is not a plain element store?  An array passed
+        bare to a helper of the package that only reads elements of that parameter (see _reads_only) is not handed on: the call
+        leaves every slot as it is and what it returns is an index (or value) the analysis knows nothing about"""
+        stack = [node]
+        while stack:
+            x = stack.pop()
             if isinstance(x, ast.Name) and x.id in self.arrays:
                 return True
+            if isinstance(x, ast.Call) and self.reading_call(x):
+                stack.extend(a for a in x.args if not (isinstance(a, ast.Name) and a.id in self.arrays))
+                continue
+            stack.extend(ast.iter_child_nodes(x))
         return False
+
+    def reading_call(self, c):
+        """a call of a package function that receives arrays bare, each in a parameter the callee only reads element by element"""
+        if self.repo is None or c.keywords or any(isinstance(a, ast.Starred) for a in c.args):
+            return False
+        if not any(isinstance(a, ast.Name) and a.id in self.arrays for a in c.args):
+            return False
+        h = _callee(self.repo, self.fi, c)
+        if h is None or h.node is self.fi.node:
+            return False
+        params = _plain_params(h)
+        if params is None or len(params) != len(c.args):
+            return False
+        return all(_reads_only(self.repo, h, p_) for p_, a in zip(params, c.args) if isinstance(a, ast.Name) and a.id in self.arrays)
 
     def truth(self, t, st):
         if isinstance(t, ast.Constant):
@@ -2389,9 +2443,9 @@ class _Vacated:
         return bool(ops) and all(o is not None and (self.elem(o) is not None or (isinstance(o, ast.Name) and o.id in readers)) for o in ops)
 
 
-def permutation(chk, fi, arrays):
+def permutation(chk, fi, arrays, repo=None):
     q = fi.qualname
-    va = _Vacated(fi, arrays)
+    va = _Vacated(fi, arrays, repo)
     try:
         va.run()
     except AnalysisError:
@@ -3112,7 +3166,7 @@ def _opq(text):
 def _known(t):
     """no unrecognised sub-term in a sympy term"""
     try:
-        return not any(str(s).startswith("?") for s in t.free_symbols)
+        return not any(str(s).startswith("?") for s in t.free_symbols) and not t.has(sp.Piecewise)
     except Exception:
         return False
 
@@ -3137,13 +3191,16 @@ def _pull(a, b):
     a = sp.expand(a)
     if b.is_Symbol:
         k = a.coeff(b)
-        if k.is_Integer and k != 0:
+        # k*b with k an integer-valued term (an integer, or a product / sum of integer names) is a whole multiple of b
+        if k != 0 and (k.is_Integer or (k.is_integer is True and k.is_polynomial() and b not in k.free_symbols)):
             return sp.expand(a - k * b), k
     return a, sp.Integer(0)
 
 
 def _ceildiv(a, b):
     a, k = _pull(a, b)
+    if a == 0:
+        return k
     return _cdiv(a, b) + k
 
 
@@ -3152,6 +3209,8 @@ def _floordiv(a, b):
     that -(-x // b), (x + b - 1) // b and (x - 1) // b + 1 are one term"""
     try:
         a, k = _pull(a, b)
+        if a == 0:
+            return k
         if a.could_extract_minus_sign():
             return -_ceildiv(-a, b) + k
         if a.as_coeff_Add()[0] == -1:
@@ -3313,6 +3372,56 @@ class _Shift:
         self.cum, self.lo, self.hi = cum, lo, hi
 
 
+class _FieldView:
+    """`T['f']` kept under a name: a store through it is a store into that field of the table"""
+    def __init__(self, tab, field):
+        self.tab, self.field = tab, field
+
+
+def _pw_fold(t):
+    """a term with its case distinctions pulled to the top and every arm expanded"""
+    t = sp.piecewise_fold(sp.expand(t))
+    if isinstance(t, sp.Piecewise):
+        return sp.Piecewise(*[(sp.expand(v), c) for v, c in t.args])
+    return sp.expand(t)
+
+
+def _pw_eq(a, b):
+    """are two terms (possibly with case distinctions on the same conditions) equal in every case?  True / None"""
+    try:
+        d = _pw_fold(a - b)
+        if isinstance(d, sp.Piecewise):
+            return True if all(_teq(v, 0) is True for v, _ in d.args) else None
+        return True if _teq(d, 0) is True else None
+    except Exception:
+        return None
+
+
+def _runs_of(d, i, n):
+    """the values d(0), ..., d(n-1) of a term in the round number i as runs [(count, value)]: one run when d does not depend on i, two
+    when d is `x if i < k else y` (or `y if i >= k else x`) with k the remainder of a division by n, so that 0 <= k <= n.  None: not of that form"""
+    try:
+        d = _pw_fold(d)
+        if not d.has(sp.Piecewise):
+            return [(n, d)] if (i not in d.free_symbols and _known(d)) else None
+        if not (isinstance(d, sp.Piecewise) and len(d.args) == 2 and d.args[1][1] == True):    # noqa: E712 (a sympy truth value)
+            return None
+        (x, c), (y, _) = d.args
+        if any(v.has(sp.Piecewise) or i in v.free_symbols or not _known(v) for v in (x, y)):
+            return None
+        if isinstance(c, (sp.StrictLessThan, sp.StrictGreaterThan)) and c.lts == i:
+            k, first, second = c.gts, x, y                # i < k
+        elif isinstance(c, (sp.LessThan, sp.GreaterThan)) and c.gts == i:
+            k, first, second = c.lts, y, x                # i >= k
+        else:
+            return None
+        if i in k.free_symbols or not _is_remainder_of(k, n):
+            return None
+        return [(k, first), (sp.expand(n - k), second)]
+    except Exception:
+        return None
+
+
 def _total(segs):
     t = sp.Integer(0)
     for c, _ in segs:
@@ -3327,6 +3436,7 @@ class _IsplitEval(_Sx):
         self.ret = []
         self.loop = None       # (symbol, count) of the enclosing `for i in range(count)`
         self.swapped = False
+        self.carried = {}      # symbol of a loop-carried running total "as the round begins" -> (its _Cum, increment per round)
 
     # -- expressions ------------------------------------------------------
     def ev(self, e):
@@ -3336,9 +3446,34 @@ class _IsplitEval(_Sx):
                 return _Rep([(sp.Integer(1), v) for v in vs])
             if isinstance(e, ast.Tuple):
                 return tuple(self.ev(x) for x in e.elts)
+        if isinstance(e, ast.IfExp):
+            c, a, b = self.cond(e.test), self.ev(e.body), self.ev(e.orelse)
+            if c is not None and self.scalar(a) and self.scalar(b):
+                return sp.Piecewise((a, c), (b, True))
+            return None if (isinstance(a, (_Rep, _Cum, _Tab, _Seq, _FieldView)) or isinstance(b, (_Rep, _Cum, _Tab, _Seq, _FieldView))) else _opq(norm(e))
+        if isinstance(e, ast.Compare):
+            c = self.cond(e)               # a comparison used as a number: 1 where it holds, 0 elsewhere
+            return sp.Piecewise((sp.Integer(1), c), (sp.Integer(0), True)) if c is not None else _opq(norm(e))
         return _Sx.ev(self, e)
 
+    def cond(self, t):
+        """an ordering test between integer terms as a sympy relation, else None"""
+        if isinstance(t, ast.UnaryOp) and isinstance(t.op, ast.Not):
+            c = self.cond(t.operand)
+            return sp.Not(c) if c is not None else None
+        if isinstance(t, ast.Compare) and len(t.ops) == 1 and isinstance(t.ops[0], (ast.Lt, ast.LtE, ast.Gt, ast.GtE)):
+            a, b = self.ev(t.left), self.ev(t.comparators[0])
+            if self.scalar(a) and self.scalar(b) and _known(a) and _known(b):
+                try:
+                    c = {ast.Lt: sp.Lt, ast.LtE: sp.Le, ast.Gt: sp.Gt, ast.GtE: sp.Ge}[type(t.ops[0])](a, b)
+                except Exception:
+                    return None
+                return c if isinstance(c, sp.core.relational.Relational) else None
+        return None
+
     def binop(self, e, a, b):
+        if isinstance(a, _FieldView) or isinstance(b, _FieldView):
+            return None
         if isinstance(a, _Rep) and isinstance(b, _Rep) and isinstance(e.op, ast.Add):
             return _Rep(a.segs + b.segs)
         if isinstance(e.op, ast.Mult):
@@ -3458,12 +3593,23 @@ class _IsplitEval(_Sx):
             if self.scalar(i):
                 return _Elem(base, i)
             return None
-        if isinstance(base, (_Rep, _Tab)):
+        if isinstance(base, _Tab) and isinstance(e.slice, ast.Constant) and isinstance(e.slice.value, str) and e.slice.value in base.fields:
+            return _FieldView(base, e.slice.value)
+        if isinstance(base, (_Rep, _Tab, _FieldView)):
             return None
         return _Sx.subscript(self, e)
 
     # -- statements -------------------------------------------------------
     def _kill(self, st):
+        for x in ast.walk(st):
+            if isinstance(x, ast.Name) and isinstance(x.ctx, ast.Load):
+                # a table (or a field of it kept under a name) that a statement the evaluation does not follow gets hold of
+                v = self.env.get(x.id)
+                if isinstance(v, _FieldView):
+                    v.tab.fields[v.field] = "?"
+                elif isinstance(v, _Tab):
+                    for f_ in v.fields:
+                        v.fields[f_] = "?"
         for x in ast.walk(st):
             if isinstance(x, ast.Name) and isinstance(x.ctx, ast.Store):
                 self.env[x.id] = None
@@ -3497,6 +3643,9 @@ class _IsplitEval(_Sx):
                 self.store(t, st.value, None)
                 return
         if isinstance(st, ast.AugAssign):
+            if isinstance(st.target, ast.Name) and isinstance(self.env.get(st.target.id), (_FieldView, _Tab)):
+                self._kill(st)             # in-place arithmetic on the table
+                return
             if isinstance(st.target, ast.Name):
                 v = self.binop(ast.BinOp(left=st.target, op=st.op, right=st.value), self.ev(st.target), self.ev(st.value))
                 self.env[st.target.id] = v
@@ -3515,16 +3664,21 @@ class _IsplitEval(_Sx):
                 return
         if isinstance(st, ast.For) and isinstance(st.target, ast.Name) and isinstance(st.iter, ast.Call) and call_name(st.iter) == "range" \
                 and not st.orelse and not st.iter.keywords and (len(st.iter.args) == 1 or (len(st.iter.args) == 2 and norm(st.iter.args[0]) == "0")) \
-                and not any(isinstance(x, (ast.If, ast.Break, ast.Continue, ast.For, ast.While, ast.Return, ast.Try)) for b in st.body for x in ast.walk(b)):
+                and not any(isinstance(x, (ast.Break, ast.Continue, ast.For, ast.While, ast.Return, ast.Try, ast.Raise, ast.With)) for b in st.body for x in ast.walk(b)) \
+                and self.loop is None:
             n = self.ev(st.iter.args[-1])
-            if self.scalar(n):
-                self.loop = (self.sym(st.target.id), n)
-                self.env.pop(st.target.id, None)
-                self.run(st.body)
-                self.loop = None
+            if self.scalar(n) and self._for_range(st, n):
                 return
         if isinstance(st, ast.If) and not st.orelse and st.body and isinstance(st.body[-1], ast.Raise):
             return                 # a rejection guard leaves the state of the continuing path unchanged
+        if isinstance(st, ast.If) and self._if_names(st):
+            return
+        if isinstance(st, ast.Try) and st.handlers and all(h.body and isinstance(h.body[-1], ast.Raise) for h in st.handlers) and self.loop is None:
+            # every handler ends in a raise: the path that continues has run the whole body (then else, then finally)
+            self.run(st.body)
+            self.run(st.orelse)
+            self.run(st.finalbody)
+            return
         if isinstance(st, ast.Return):
             self.ret.append(self.ev(st.value) if st.value is not None else None)
             return
@@ -3532,8 +3686,119 @@ class _IsplitEval(_Sx):
             return
         self._kill(st)
 
+    def _if_names(self, st):
+        """an if / else whose arms only bind plain names, under an ordering test between integer terms: each name bound in an arm
+        becomes `x if test else y`.  False: not of that form (nothing was done)"""
+        c = self.cond(st.test)
+        if c is None:
+            return False
+        for arm in (st.body, st.orelse):
+            for x in arm:
+                ok = (isinstance(x, ast.Assign) and len(x.targets) == 1 and isinstance(x.targets[0], ast.Name)) or \
+                    (isinstance(x, ast.AugAssign) and isinstance(x.target, ast.Name)) or isinstance(x, ast.Pass)
+                if not ok or any(isinstance(y, ast.Call) for y in ast.walk(x)):
+                    return False
+                t = x.targets[0] if isinstance(x, ast.Assign) else getattr(x, "target", None)
+                if t is not None and isinstance(self.env.get(t.id), (_Tab, _FieldView, _Rep, _Cum, _Seq)):
+                    return False
+        env0 = dict(self.env)
+        self.run(st.body)
+        env_t = self.env
+        self.env = dict(env0)
+        self.run(st.orelse)
+        env_f = self.env
+        out = dict(env0)
+        for k in set(env_t) | set(env_f):
+            a, b = env_t.get(k, self.sym(k)), env_f.get(k, self.sym(k))
+            if a is b:
+                out[k] = a
+            elif self.scalar(a) and self.scalar(b):
+                out[k] = a if _teq(a, b) is True else sp.Piecewise((a, c), (b, True))
+            else:
+                out[k] = None
+        self.env = out
+        return True
+
+    def _scratch(self):
+        """a copy of the evaluator on which a loop body can be tried out: tables are copied, everything else is immutable"""
+        o = _IsplitEval({})
+        tabs = {}
+
+        def cp(v):
+            if isinstance(v, _Tab):
+                if id(v) not in tabs:
+                    tabs[id(v)] = _Tab(v.n, v.fields)
+                return tabs[id(v)]
+            if isinstance(v, _FieldView):
+                return _FieldView(cp(v.tab), v.field)
+            return v
+        o.env = {k: cp(v) for k, v in self.env.items()}
+        o.cums = list(self.cums)
+        o.carried = dict(self.carried)
+        return o
+
+    def _for_range(self, st, n):
+        """`for i in range(n)` with a straight-line body.  A name the body reads before it binds it is carried from one round to the
+        next: with A its value as round i begins, the body is evaluated once to find its value A + d(i) as the round ends; the
+        values A takes are then init, init + d(0), init + d(0) + d(1), ...: the cumulative sums of the runs of d led by init, and
+        inside the round A is element i of that sequence, A + d(i) element i + 1.  False: not followed (nothing was done)"""
+        i = self.sym(st.target.id)
+        stored = {x.id for b in st.body for x in ast.walk(b) if isinstance(x, ast.Name) and isinstance(x.ctx, (ast.Store, ast.Del))}
+        if st.target.id in stored:
+            return False
+        bound, carried = set(), []
+        for b in st.body:
+            reads = [x.id for x in ast.walk(b) if isinstance(x, ast.Name) and (isinstance(x.ctx, ast.Load) or (isinstance(b, ast.AugAssign) and x is b.target))]
+            for r in reads:
+                if r in stored and r not in bound and r not in carried:
+                    carried.append(r)
+            if isinstance(b, ast.Assign) and len(b.targets) == 1 and isinstance(b.targets[0], ast.Name):
+                bound.add(b.targets[0].id)
+        syms = {}
+        if carried:
+            if not all(self.scalar(self.env.get(c)) and _known(self.env[c]) for c in carried):
+                return False
+            syms = {c: sp.Symbol("@" + c, integer=True) for c in carried}
+            sc = self._scratch()
+            sc.loop = (i, n)
+            sc.env.pop(st.target.id, None)
+            for c, a in syms.items():
+                sc.env[c] = a
+            sc.run(st.body)
+            self.swapped = self.swapped or sc.swapped
+            found = {}
+            for c, a in syms.items():
+                end = sc.env.get(c)
+                if not self.scalar(end):
+                    return False
+                d = _pw_fold(end - a)
+                if d.free_symbols & set(syms.values()):
+                    return False           # not a running total: the recurrence is not solved here
+                runs = _runs_of(d, i, n)
+                if runs is None:
+                    return False
+                found[a] = (_Cum([(sp.Integer(1), sp.expand(self.env[c]))] + runs), d)
+            for a, (cu, d) in found.items():
+                self.cums.append(cu)
+                self.carried[a] = (cu, d)
+            for c, a in syms.items():
+                self.env[c] = a
+        self.loop = (i, n)
+        self.env.pop(st.target.id, None)
+        self.run(st.body)
+        self.loop = None
+        for a in syms.values():
+            self.carried.pop(a, None)
+        # what a name bound in the body holds after the last round is not needed (and not known when there is no round at all)
+        for x in stored:
+            self.env[x] = None
+        return True
+
     def store_cum(self, target, v):
         """np.cumsum(v, out=target) / target = cumsum"""
+        if isinstance(target, ast.Name) and isinstance(self.env.get(target.id), (_FieldView, _Tab)):
+            self._kill(ast.Expr(value=ast.Name(id=target.id, ctx=ast.Load())))
+            return
         if not isinstance(v, (_Rep, _Cum)):
             self._kill(ast.Assign(targets=[_as_store(target)], value=ast.Constant(value=0)))
             return
@@ -3598,6 +3863,12 @@ class _IsplitEval(_Sx):
             subs.append(b.slice)
             b = b.value
         subs.reverse()
+        if isinstance(b, ast.Name) and isinstance(self.env.get(b.id), _FieldView):
+            view = self.env[b.id]
+            if len(subs) != 1 or (isinstance(subs[0], ast.Constant) and isinstance(subs[0].value, str)):
+                view.tab.fields[view.field] = "?"
+                return None, None, None
+            return view.tab, view.field, subs[0]
         if not isinstance(b, ast.Name) or not isinstance(self.env.get(b.id), _Tab):
             return None, None, None
         tab = self.env[b.id]
@@ -3629,6 +3900,17 @@ class _IsplitEval(_Sx):
                 k = sp.expand(v.idx - i)
                 if i not in k.free_symbols:
                     return (v.cum, k)
+            if _teq(self.ev(idx), i) and _teq(n, tab.n) and self.scalar(v):
+                # a running total: as the round begins it is element i of its cumulative sequence, once the round's increment
+                # has been added it is element i + 1
+                mine = [a for a in self.carried if a in v.free_symbols]
+                if len(mine) == 1:
+                    a = mine[0]
+                    cu, d = self.carried[a]
+                    if _pw_eq(v, a) is True:
+                        return (cu, sp.Integer(0))
+                    if _pw_eq(v, a + d) is True:
+                        return (cu, sp.Integer(1))
         return "?"
 
 
@@ -3980,8 +4262,16 @@ def _ceil_count(count, fi, size, nper):
     want = _cdiv(size, nper)
     floor_only = _fdiv(size, nper)
     if count[0] == "ceil":
-        return True if _teq(_ceildiv(count[1], count[2]), want) is True else None
-    e = count[1]
+        # range(lo, hi, step): ceil((hi - lo) / step) rounds.  When hi - lo is a whole multiple k*step the count is k; a k that is a
+        # local of the function is then judged below like the bound of range(k)
+        v = _ceildiv(count[1], count[2])
+        if _teq(v, want) is True:
+            return True
+        if not (isinstance(v, sp.Symbol) and str(v) in _stored_names(fn) and str(v) not in func_params(fn)):
+            return None
+        e = ast.Name(id=str(v), ctx=ast.Load())
+    else:
+        e = count[1]
     sx = _SplitEval({}, fn)
     if not isinstance(e, ast.Name) or e.id in rules.single_defs(fn):
         v = sx.ev(e)
